@@ -68,16 +68,16 @@ def EvAt (keep : List Str) (p : Str) : Event → Prop
   | .exec argv _ => argv.getLast? = some p ∧ ∀ a ∈ argv.dropLast, a ∈ keep
   | .custom _ _ => False
 
-theorem FS.set_ne (fs : FS) (p q : Str) (f : Option File) (h : q ≠ p) : fs.set p f q = fs q := by
+theorem FS.set_ne (fs : FS) (p q : Str) (f : Option File) (h : q ≠ p) : (fs.set p f).get q = fs.get q := by
   simp [FS.set, h]
 
-theorem FS.set_eq (fs : FS) (p : Str) (f : Option File) : fs.set p f p = f := by
+theorem FS.set_eq (fs : FS) (p : Str) (f : Option File) : (fs.set p f).get p = f := by
   simp [FS.set]
 
 /-- Frame of one operation: a path other than `p` that is protected from the program keeps its file. -/
 theorem step_frame (prog : Prog) (ren : Nat → Str → Str) (dm : Nat) (keep : List Str) (hF : prog.EditsLastOnly keep)
     (w : World) (e : Event) (p q : Str) (he : EvAt keep p e) (hq : q ≠ p) :
-    (step prog ren dm w e).fs q = w.fs q := by
+    (step prog ren dm w e).fs.get q = w.fs.get q := by
   unfold step
   cases hw : w.err with
   | some x => rfl
@@ -89,7 +89,7 @@ theorem step_frame (prog : Prog) (ren : Nat → Str → Str) (dm : Nat) (keep : 
       have : p' = p := he
       subst this
       simp only
-      cases hf : w.fs p' with
+      cases hf : w.fs.get p' with
       | none => rfl
       | some f =>
         by_cases ha : allow = true
@@ -107,7 +107,7 @@ theorem step_frame (prog : Prog) (ren : Nat → Str → Str) (dm : Nat) (keep : 
       have : p' = p := he
       subst this
       simp only
-      cases hf : w.fs p' with
+      cases hf : w.fs.get p' with
       | none => rfl
       | some f => simp [FS.set_ne _ _ _ _ hq]
     | exec argv chk =>
@@ -119,7 +119,7 @@ theorem step_frame (prog : Prog) (ren : Nat → Str → Str) (dm : Nat) (keep : 
 
 theorem interp_frame (prog : Prog) (ren : Nat → Str → Str) (dm : Nat) (keep : List Str) (hF : prog.EditsLastOnly keep)
     (evs : List Event) (w : World) (q : Str) (he : ∀ e ∈ evs, ∃ p, EvAt keep p e ∧ q ≠ p) :
-    (interp prog ren dm w evs).fs q = w.fs q := by
+    (interp prog ren dm w evs).fs.get q = w.fs.get q := by
   induction evs generalizing w with
   | nil => rfl
   | cons e es ih =>
@@ -139,7 +139,7 @@ theorem mem_of_last_dropLast (argv : Argv) (p a : Str) (hl : argv.getLast? = som
 
 /-- Two worlds that agree on `p` and on the protected paths, and are both (not) in error. -/
 def Agree (keep : List Str) (p : Str) (w w' : World) : Prop :=
-  w.err = w'.err ∧ ∀ q, (q = p ∨ q ∈ keep) → w.fs q = w'.fs q
+  w.err = w'.err ∧ ∀ q, (q = p ∨ q ∈ keep) → w.fs.get q = w'.fs.get q
 
 theorem step_local (prog : Prog) (ren : Nat → Str → Str) (dm : Nat) (keep : List Str) (hF : prog.EditsLastOnly keep)
     (hL : prog.Local) (w w' : World) (e : Event) (p : Str) (he : EvAt keep p e) (h : Agree keep p w w') :
@@ -162,7 +162,7 @@ theorem step_local (prog : Prog) (ren : Nat → Str → Str) (dm : Nat) (keep : 
       have : p' = p := he
       subst this
       simp only [← hp]
-      cases hf : w.fs p' with
+      cases hf : w.fs.get p' with
       | none => exact ⟨rfl, hfs⟩
       | some f =>
         by_cases ha : allow = true
@@ -192,7 +192,7 @@ theorem step_local (prog : Prog) (ren : Nat → Str → Str) (dm : Nat) (keep : 
       have : p' = p := he
       subst this
       simp only [← hp]
-      cases hf : w.fs p' with
+      cases hf : w.fs.get p' with
       | none => exact ⟨rfl, hfs⟩
       | some f =>
         refine ⟨rfl, fun q hq => ?_⟩
@@ -200,11 +200,11 @@ theorem step_local (prog : Prog) (ren : Nat → Str → Str) (dm : Nat) (keep : 
         · subst hqp; simp [FS.set_eq]
         · simp [FS.set_ne _ _ _ _ hqp, hfs q hq]
     | exec argv chk =>
-      have hargs : ∀ a ∈ argv, w.fs a = w'.fs a := fun a ha => hfs a (mem_of_last_dropLast argv p a he.1 ha he.2)
+      have hargs : ∀ a ∈ argv, w.fs.get a = w'.fs.get a := fun a ha => hfs a (mem_of_last_dropLast argv p a he.1 ha he.2)
       obtain ⟨hl1, hl2⟩ := hL argv w.fs w'.fs hargs
       simp only [hl2]
       refine ⟨rfl, fun q hq => ?_⟩
-      show (prog argv w.fs).1 q = (prog argv w'.fs).1 q
+      show (prog argv w.fs).1.get q = (prog argv w'.fs).1.get q
       by_cases hm : q ∈ argv
       · exact hl1 q hm
       · have hne : some q ≠ argv.getLast? := by
@@ -330,10 +330,10 @@ theorem run_file_independent (prog : Prog) (ren : Nat → Str → Str) (dm : Nat
     (pre post : List Job) (j : Job)
     (hout : ∀ k ∈ pre ++ j :: post, k.path ∉ py :: cfgArgs objs)
     (hpre : ∀ k ∈ pre, k.path ≠ j.path) (hpost : ∀ k ∈ post, k.path ≠ j.path)
-    (fs fs' : FS) (hagree : ∀ q, (q = j.path ∨ q ∈ py :: cfgArgs objs) → fs q = fs' q)
+    (fs fs' : FS) (hagree : ∀ q, (q = j.path ∨ q ∈ py :: cfgArgs objs) → fs.get q = fs'.get q)
     (hok : (runWorld prog ren dm (callReal py ren) objs (pre ++ j :: post) fs).err = none) :
-    (runWorld prog ren dm (callReal py ren) objs (pre ++ j :: post) fs).fs j.path =
-      (fileWorld prog ren dm (callReal py ren) objs j fs').fs j.path ∧
+    (runWorld prog ren dm (callReal py ren) objs (pre ++ j :: post) fs).fs.get j.path =
+      (fileWorld prog ren dm (callReal py ren) objs j fs').fs.get j.path ∧
     (fileWorld prog ren dm (callReal py ren) objs j fs').err = none := by
   let keep := py :: cfgArgs objs
   have hk : ∀ a, a = py ∨ a ∈ cfgArgs objs → a ∈ keep := by
@@ -354,7 +354,7 @@ theorem run_file_independent (prog : Prog) (ren : Nat → Str → Str) (dm : Nat
     rw [← hw2] at herr2
     exact interp_err_sticky prog ren dm w1 _ herr2
   -- stage 1 leaves `j.path` and the protected paths alone
-  have hfr1 : ∀ q, (q = j.path ∨ q ∈ keep) → w1.fs q = fs q := by
+  have hfr1 : ∀ q, (q = j.path ∨ q ∈ keep) → w1.fs.get q = fs.get q := by
     intro q hq
     rw [← hw1]
     apply interp_frame prog ren dm keep hF
@@ -376,8 +376,8 @@ theorem run_file_independent (prog : Prog) (ren : Nat → Str → Str) (dm : Nat
     (hev j) hag
   rw [hw2] at hloc
   -- stage 3: frame again
-  have hfr3 : (interp prog ren dm w2 (List.map (fun j => (fileEvents (callReal py ren) objs j).1) post).flatten).fs j.path
-      = w2.fs j.path := by
+  have hfr3 : (interp prog ren dm w2 (List.map (fun j => (fileEvents (callReal py ren) objs j).1) post).flatten).fs.get j.path
+      = w2.fs.get j.path := by
     apply interp_frame prog ren dm keep hF
     intro e he
     obtain ⟨evs, hevs, hmem⟩ := List.mem_flatten.mp he
@@ -412,24 +412,32 @@ theorem fileEvents_setMode_last (py : Str) (ren : Nat → Str → Str) (front : 
     simp [callAll, Obj.isFilePP, callReal]
   unfold fileEvents
   cases j.kind with
-  | generate => refine ⟨_, ?_⟩; simp only [hc, hlast, ← List.append_assoc]; rfl
-  | copy m => refine ⟨_, ?_⟩; simp only [hc, hlast, ← List.append_assoc]; rfl
+  | generate =>
+    exact ⟨classify (front ++ [.setMode mode]) ++
+      [.overwrite j.path j.allow, .write j.path j.bytes (lineIds (front ++ [.setMode mode]))] ++
+      (callAll (callReal py ren) front j.path).1, by simp only [hc, hlast, ← List.append_assoc]⟩
+  | copy m =>
+    exact ⟨(if hasUnknown (front ++ [.setMode mode]) then [Event.raiseUnknown] else []) ++ [.overwrite j.path j.allow] ++
+        (if lineIds (front ++ [.setMode mode]) = [] then [Event.copy j.path j.bytes m]
+         else (lineIds (front ++ [.setMode mode])).map Event.reset ++
+          [.write j.path j.bytes (lineIds (front ++ [.setMode mode]))]) ++
+      (callAll (callReal py ren) front j.path).1, by simp only [hc, hlast, ← List.append_assoc]⟩
 
 theorem step_chmod_ok (prog : Prog) (ren : Nat → Str → Str) (dm : Nat) (w : World) (p : Str) (m : Nat)
     (h : (step prog ren dm w (.chmod p m)).err = none) :
-    ((step prog ren dm w (.chmod p m)).fs p).map File.mode = some m := by
+    ((step prog ren dm w (.chmod p m)).fs.get p).map File.mode = some m := by
   have hw := step_err_sticky prog ren dm w _ h
   unfold step at h ⊢
   simp only [hw] at h ⊢
-  cases hf : w.fs p with
+  cases hf : w.fs.get p with
   | none => simp [hf] at h
   | some f => simp [FS.set_eq]
 
 /-! ### The recording program of the tie is an in-place editor in the sense of the hypotheses (non-vacuity) -/
 
-theorem stubEdit_ne (marker : Nat → Str) (fs : FS) (l q : Str) (h : q ≠ l) : stubEdit marker fs l q = fs q := by
+theorem stubEdit_ne (marker : Nat → Str) (fs : FS) (l q : Str) (h : q ≠ l) : (stubEdit marker fs l).get q = fs.get q := by
   unfold stubEdit
-  cases fs l with
+  cases fs.get l with
   | none => rfl
   | some f => exact FS.set_ne _ _ _ _ h
 
@@ -459,7 +467,7 @@ theorem stubProg_local (marker : Nat → Str) (failOn : List Str) : (stubProg ma
     · subst hpl
       unfold stubEdit
       rw [← hag p hp]
-      cases fs p with
+      cases fs.get p with
       | none => simp [hag p hp]
       | some f => simp [FS.set_eq]
     · rw [stubEdit_ne marker fs l p hpl, stubEdit_ne marker fs' l p hpl]
